@@ -258,6 +258,20 @@ Base(b) ==
                                ObjectDecl(DeclNames[1][1],
                                           << Plain(FieldNames[1], Ref("object", PkgNames[1], <<ShadowMessage.src>>, "", "qual")),
                                              Plain(FieldNames[2], Ref("object", PkgNames[1], <<ShadowRequest.src>>, "", "qual")) >>) >>) >>) >>]
+      \* ... and the derived types REFER to their namesakes of the parent package: foo.v1.service.GetApricotRequest has a field of
+      \* type foo.v1.GetApricotRequest, foo.v1.topic.ApricotItemMessage one of type foo.v1.ApricotItemMessage (a relative name
+      \* written inside the sub-package would find the sub-package's own type first)
+      [] b = "shadowsvc" -> [pkgs |-> << Pkg(PkgNames[1], << File("a", <<>>,
+                            << ObjectDecl(ShadowMessage, <<MinField(1)>>),
+                               ObjectDecl(ShadowRequest, <<MinField(1)>>),
+                               ServiceDecl(DeclNames[1][4], "/" \o ShortOf(PkgNames[1]) \o "/v1",
+                                  << Method(MethodName(DeclNames[1][4], 1), "POST", <<Lit("things")>>,
+                                            << Plain(FieldNames[1], Ref("object", PkgNames[1], <<ShadowRequest.src>>, "", "qual")) >>, TRUE,
+                                            << Plain(FieldNames[1], Ref("object", PkgNames[1], <<ShadowRequest.src>>, "", "qual")) >>) >>),
+                               TopicDecl(DeclNames[1][4], "publish",
+                                  << Message(MessageName(DeclNames[1][4], 1),
+                                             << Plain(FieldNames[1], Ref("object", PkgNames[1], <<ShadowMessage.src>>, "", "qual")) >>) >>) >>),
+                            File("b", <<>>, << ObjectDecl(DeclNames[2][1], <<>>) >>) >>) >>]
       \* file-path import (T: protobuild TestImportProtoToJ5Other, README "Packages and Imports")
       [] b = "twopkgfile" -> [pkgs |-> << Pkg(PkgNames[1], << TargetFile("a", 1) >>),
                                        Pkg(PkgNames[2], << File("a", << Import(PkgNames[1], "file", "", "a") >>,
@@ -501,6 +515,9 @@ EnumOptionChoices(n) == {[e |-> OptionNames[n + 1], rich |-> 0, label |-> ""]}
                         \* P schema.proto Enum.Option.number: a declared number (here 2, the number of an earlier option) does
                         \* not move anything - options are numbered by position
                         \cup (IF n >= 2 THEN {[e |-> "NUM2", rich |-> 1, label |-> "option-declares-number"]} ELSE {})
+                        \* an option with a description (a comment in the generated file) between options without one: comments
+                        \* do not move anything either
+                        \cup {[e |-> "NOTED", rich |-> 1, label |-> "option-with-description"]}
 
 \* R "Services": basePath, method, httpMethod, httpPath, request (required), response (optional: P file.proto APIMethod.response
 \* "when empty indicates a raw http response"); ":param" path segments name request fields (j5convert/service.go, proto/**/*.j5s)
